@@ -882,4 +882,189 @@ Section Valid.
     unfold key_from_array. change (AT_String =? AT_String) with true. cbv iota.
     unfold notify_key. cbn [cur U E e_keys norm_key]. rewrite Hfresh. reflexivity.
   Qed.
+
+  (* ---- values ---- *)
+  Variable cfg : icfg.
+  (* the validator has seen the record types of the configuration *)
+  Hypothesis Hrt : forall sid r, find_record (c_records cfg) sid = Some r ->
+    alookup (rt_name r) (rectypes c0) = Some (N.of_nat (length (decl_keys cfg r))).
+
+  (* the events [es] are one value, acceptable d containers deep *)
+  Definition ev_ok (d : N) (es : list event) : Prop :=
+    forall r dt n ex ks stk o, pos r -> room n ex -> o + weight es <= max_object_count rc ->
+      steps rc (U (E r dt n ex ks) stk d o) es = Some (U (E (next r) dt (n + 1) ex ks) stk d (o + weight es)).
+
+  Lemma scalar_ev e d : scalar_step e -> is_end e = false -> ev_ok d [e].
+  Proof.
+    intros H He r dt n ex ks stk o Hp Hr Ho. cbn [weight] in *. rewrite He in *.
+    replace (o + (1 + 0)) with (o + 1) in * by lia.
+    destruct (H r dt n ex ks stk d o Hp Hr Ho) as [out Hs]. cbn [steps]. rewrite Hs. reflexivity.
+  Qed.
+
+  Lemma len_cons {A} (x : A) l : len (x :: l) = len l + 1.
+  Proof. unfold len. cbn [length]. lia. Qed.
+
+  (* children of a list, of a node after its value, or of a record *)
+  Lemma children_run fr fdt fex d chunks :
+    pos fr -> next fr = fr -> Forall (ev_ok d) chunks ->
+    forall n ks stk o,
+      match fex with Some x => n + len chunks <= x | None => True end ->
+      o + weight (concat chunks) <= max_object_count rc ->
+      steps rc (U (E fr fdt n fex ks) stk d o) (concat chunks)
+      = Some (U (E fr fdt (n + len chunks) fex ks) stk d (o + weight (concat chunks))).
+  Proof.
+    intros Hp Hn H. induction H as [|c chunks Hc H IH]; intros n ks stk o Hex Ho.
+    - cbn [concat steps weight]. unfold len. cbn [length]. rewrite !N.add_0_r. reflexivity.
+    - cbn [concat] in *. rewrite weight_app in Ho. rewrite steps_app. rewrite len_cons in *.
+      rewrite (Hc fr fdt n fex ks stk o Hp) by (first [lia | destruct fex; cbn [room]; [lia | exact I]]).
+      rewrite Hn. rewrite IH by (first [lia | destruct fex; [lia | exact I]]).
+      rewrite weight_app. f_equal. f_equal; [f_equal|]; lia.
+  Qed.
+
+  Lemma C_list d chunks :
+    d + 1 <= max_container_depth rc -> Forall (ev_ok (d + 1)) chunks ->
+    ev_ok d (EList :: concat chunks ++ [EEnd]).
+  Proof.
+    intros Hd H r dt n ex ks stk o Hp Hr Ho.
+    cbn [weight is_end] in *. rewrite weight_app in *. cbn [weight is_end] in *.
+    cbn [steps]. rewrite S_list by (try assumption; lia).
+    rewrite steps_app. rewrite (children_run RList DT_List None (d + 1) chunks I eq_refl H) by (try exact I; lia).
+    cbn [steps]. rewrite S_end by (auto; reflexivity).
+    f_equal. f_equal. lia.
+  Qed.
+
+  Lemma C_node d c1 chunks :
+    d + 1 <= max_container_depth rc -> ev_ok (d + 1) c1 -> Forall (ev_ok (d + 1)) chunks ->
+    ev_ok d (ENode :: c1 ++ concat chunks ++ [EEnd]).
+  Proof.
+    intros Hd H1 H r dt n ex ks stk o Hp Hr Ho.
+    cbn [weight is_end] in *. rewrite !weight_app in *. cbn [weight is_end] in *.
+    cbn [steps]. rewrite S_node by (try assumption; lia).
+    rewrite steps_app. rewrite (H1 RNode DT_List 0 None [] _ _ I I) by lia. cbn [next].
+    rewrite steps_app. rewrite (children_run RList DT_List None (d + 1) chunks I eq_refl H) by (try exact I; lia).
+    cbn [steps]. rewrite S_end by (auto; reflexivity).
+    f_equal. f_equal. lia.
+  Qed.
+
+  Lemma C_record d id chunks :
+    d + 1 <= max_container_depth rc -> validate_identifier rc id = true ->
+    alookup id (rectypes c0) = Some (len chunks) -> Forall (ev_ok (d + 1)) chunks ->
+    ev_ok d (ERecord id :: concat chunks ++ [EEnd]).
+  Proof.
+    intros Hd Hid Hl H r dt n ex ks stk o Hp Hr Ho.
+    cbn [weight is_end] in *. rewrite weight_app in *. cbn [weight is_end] in *.
+    cbn [steps]. rewrite (S_record id (len chunks)) by (try assumption; lia).
+    rewrite steps_app.
+    rewrite (children_run RRecord DT_Record (Some (len chunks)) (d + 1) chunks I eq_refl H) by (try lia).
+    cbn [steps]. rewrite S_end by (auto; try reflexivity; cbn; lia).
+    f_equal. f_equal. lia.
+  Qed.
+
+  (* map entries: a key event that adds the key [nk], then the events of the value *)
+  Definition key_step (d : N) (ke : event) (nk : nkey) : Prop :=
+    is_end ke = false /\
+    forall n ks stk o, existsb (nkey_eqb nk) ks = false -> o + 1 <= max_object_count rc ->
+      rstep rc (U (E RMapKey DT_Map n None ks) stk d o) ke
+      = Some (U (E RMapValue DT_Map (n + 1) None (nk :: ks)) stk d (o + 1), [ke]).
+  Definition entry_ok (d : N) (en : event * nkey * list event) : Prop :=
+    key_step d (fst (fst en)) (snd (fst en)) /\ ev_ok d (snd en).
+  Definition entry_events (en : event * nkey * list event) : list event := fst (fst en) :: snd en.
+
+  Lemma entries_run d ens :
+    Forall (entry_ok d) ens ->
+    forall n ks stk o,
+      keys_fresh ks (map (fun en => snd (fst en)) ens) = true ->
+      o + weight (flat_map entry_events ens) <= max_object_count rc ->
+      exists n' ks',
+        steps rc (U (E RMapKey DT_Map n None ks) stk d o) (flat_map entry_events ens)
+        = Some (U (E RMapKey DT_Map n' None ks') stk d (o + weight (flat_map entry_events ens))).
+  Proof.
+    intro H. induction H as [|[[ke nk] ves] ens [[Hke Hk] Hv] H IH]; intros n ks stk o Hf Ho.
+    - exists n, ks. cbn [flat_map steps weight]. rewrite N.add_0_r. reflexivity.
+    - cbn [flat_map entry_events fst snd map keys_fresh] in *.
+      apply andb_true_iff in Hf as [Hf1 Hf2]. apply negb_true_iff in Hf1.
+      unfold entry_events in *. cbn [fst snd] in *. cbn [weight app] in Ho. rewrite Hke in Ho. rewrite weight_app in Ho.
+      cbn [app steps]. rewrite Hk by (try assumption; lia).
+      rewrite steps_app. rewrite (Hv RMapValue DT_Map (n + 1) None (nk :: ks) stk (o + 1) I I) by lia.
+      cbn [next].
+      destruct (IH (n + 1 + 1) (nk :: ks) stk (o + 1 + weight ves) Hf2) as [n' [ks' Hs]]; [lia|].
+      exists n', ks'. rewrite Hs. cbn [weight]. rewrite Hke, weight_app. f_equal. f_equal. lia.
+  Qed.
+
+  Lemma C_map d ens :
+    d + 1 <= max_container_depth rc -> Forall (entry_ok (d + 1)) ens ->
+    keys_fresh [] (map (fun en => snd (fst en)) ens) = true ->
+    ev_ok d (EMap :: flat_map entry_events ens ++ [EEnd]).
+  Proof.
+    intros Hd H Hf r dt n ex ks stk o Hp Hr Ho.
+    cbn [weight is_end] in *. rewrite weight_app in *. cbn [weight is_end] in *.
+    cbn [steps]. rewrite S_map by (try assumption; lia).
+    rewrite steps_app.
+    destruct (entries_run (d + 1) ens H 0 [] (E r dt (n + 1) ex ks :: stk) (o + 1) Hf) as [n' [ks' Hs]]; [lia|].
+    rewrite Hs. cbn [steps]. rewrite S_end by (auto; reflexivity).
+    f_equal. f_equal. lia.
+  Qed.
+
+  (* ---- leaves ---- *)
+  Lemma array_bits_at_of k : array_bits (at_of k) = Some (8 * N.of_nat (width_of k)).
+  Proof. destruct k; reflexivity. Qed.
+  Lemma width_bounds k : 1 <= N.of_nat (width_of k) <= 8.
+  Proof. destruct k; cbn [width_of]; lia. Qed.
+
+  Lemma elem_byte_count_bytes w n :
+    1 <= w <= 8 -> n * 64 < two64 -> elem_byte_count (8 * w) n = n * w.
+  Proof.
+    intros Hw Hn. unfold elem_byte_count.
+    replace (8 * w =? 1) with false by (symmetry; apply N.eqb_neq; lia). cbn [andb].
+    assert (Hlt : n * (8 * w) < two64) by (unfold two64 in *; nia).
+    rewrite N.mod_small by exact Hlt.
+    replace (n * (8 * w)) with (n * w * 8) by lia. apply N.div_mul. lia.
+  Qed.
+
+  Lemma blen_num_bytes k es : blen (num_bytes k es) = len es * N.of_nat (width_of k).
+  Proof.
+    unfold blen, len, num_bytes. induction es as [|z es IH]; cbn [flat_map length]; [lia|].
+    rewrite app_length. unfold elem_bytes at 1. rewrite le_encode_length. lia.
+  Qed.
+
+  Lemma pack_loop_length v i n : length (pack_bools_loop v i n) = n.
+  Proof. revert i. induction n as [|n IH]; intro i; cbn [pack_bools_loop length]; [reflexivity | rewrite IH; reflexivity]. Qed.
+
+  Lemma L_num d sk k es : vok rc cfg d (VNum sk k es) = true -> ev_ok d (plain cfg (VNum sk k es)).
+  Proof.
+    intro H. cbn [vok] in H. apply andb_true_iff in H as [H1 H2]. apply N.ltb_lt in H1.
+    apply scalar_ev; [|reflexivity]. apply S_array.
+    - destruct k; reflexivity.
+    - unfold validate_full_array_any.
+      replace (is_stringlike_validated (at_of k)) with false by (destruct k; reflexivity).
+      rewrite array_bits_at_of. rewrite H2. rewrite blen_num_bytes.
+      rewrite elem_byte_count_bytes by (try apply width_bounds; exact H1). rewrite N.eqb_refl. reflexivity.
+    - destruct k; reflexivity.
+  Qed.
+
+  Lemma L_bools d sk l : vok rc cfg d (VBools sk l) = true -> ev_ok d (plain cfg (VBools sk l)).
+  Proof.
+    intro H. cbn [vok] in H. apply andb_true_iff in H as [_ H2].
+    apply scalar_ev; [|reflexivity]. apply S_array; [reflexivity| |reflexivity].
+    unfold validate_full_array_any. change (is_stringlike_validated AT_Bit) with false. cbv iota.
+    change (array_bits AT_Bit) with (Some 1). cbv iota. rewrite H2.
+    unfold blen, pack_bools. rewrite pack_loop_length, N2Nat.id. unfold bool_byte_count. rewrite N.eqb_refl. reflexivity.
+  Qed.
+
+  Lemma L_string d s : vok rc cfg d (VString s) = true -> ev_ok d (plain cfg (VString s)).
+  Proof.
+    intro H. cbn [vok] in H. apply scalar_ev; [|reflexivity]. apply S_string; [reflexivity | exact H | reflexivity].
+  Qed.
+  Lemma L_url d z s : vok rc cfg d (VUrl z s) = true -> ev_ok d (plain cfg (VUrl z s)).
+  Proof.
+    intro H. cbn [vok] in H. apply scalar_ev; [|reflexivity]. apply S_string; [reflexivity | exact H | reflexivity].
+  Qed.
+  Lemma L_media d z mt data : vok rc cfg d (VMedia z mt data) = true -> ev_ok d (plain cfg (VMedia z mt data)).
+  Proof.
+    intro H. cbn [vok] in H. apply andb_true_iff in H as [H H3]. apply andb_true_iff in H as [H1 H2]. apply N.ltb_lt in H2.
+    apply scalar_ev; [|reflexivity]. apply S_media; [exact H1|].
+    unfold validate_full_array_any. change (is_stringlike_validated AT_Media) with false. cbv iota.
+    change (array_bits AT_Media) with (Some (8 * 1)). cbv iota. rewrite H3.
+    rewrite elem_byte_count_bytes by (try lia; unfold two64 in *; lia). rewrite N.mul_1_r, N.eqb_refl. reflexivity.
+  Qed.
 End Valid.
